@@ -56,7 +56,7 @@ def bayesExpand (p : Expr) : Except Err Expr :=
 /-- `sorted(set, key=attrgetter("name"))` on a set of variables: by name; elements that share a name come in set
 iteration order in Python, here in `Var.keyLt` order -/
 def sortByName (vs : List Var) : List Var :=
-  sortBy (fun a b => decide (a.name < b.name)) (upgradeOrdering vs)
+  sortStable (fun a b => decide (a.name < b.name)) (upgradeOrdering vs)
 
 /-- `contract(e)` (after the fix: numerator and denominator must be over the same population, and a fraction of two
 equal joints is left alone) -/
